@@ -33,7 +33,7 @@ body written for 1xx/204/304, 205 with an unsized body left undelimited) were re
 commits and the model follows the repaired code.
 Not modelled (outside the statement's product or other properties' territory): `stream = True`
 together with a non-iterator body (a TypeError loop in the framework - reported, not judged),
-body iterators that raise (and with them `_on_response_failure`), request cookies echoed as Set-Cookie,
+(body iterators that raise and handlers returning True / False: modelled since, see the last part of this file), request cookies echoed as Set-Cookie,
 request parsing (C13), errors.py (the page text and the headers an httperror / redirect event leaves are
 parameters `ErrEnv` of the second part), the scheduling of coroutine handlers inside the core (C04/C06: which
 events reach the decision code for a handler shape is the observed table `trace`).
